@@ -51,27 +51,24 @@ func (m *Machine) evalClause(st *State, c *Clause, bind map[string]Value) (Value
 
 func (m *Machine) bindParams(st *State, fn *ssa.Function, args []Value, fvals []Value) map[string]Value {
 	bind := map[string]Value{}
-	for i, p := range fn.Params {
-		n := p.Name()
-		if n == "" || n == "_" {
-			n = fmt.Sprintf("p%d", i)
-		}
-		bind[n] = args[i]
+	for i := range fn.Params {
+		bind[paramNameOf(fn, i)] = args[i]
 	}
 	for i, fv := range fn.FreeVars {
 		v := fvals[i]
+		name := freeVarNameOf(fn, fv)
 		if p, ok := v.(*Ptr); ok {
 			if pt, isPtr := fv.Type().(*types.Pointer); isPtr {
 				if keepPtrFV(pt.Elem()) {
-					bind[fv.Name()] = p
+					bind[name] = p
 					continue
 				}
-				bind[fv.Name()] = m.Load(st, p)
-				bind["&"+fv.Name()] = p
+				bind[name] = m.Load(st, p)
+				bind["&"+name] = p
 				continue
 			}
 		}
-		bind[fv.Name()] = v
+		bind[name] = v
 	}
 	return bind
 }
@@ -136,10 +133,7 @@ func (m *Machine) verifyOnce() {
 	var args []Value
 	m.inputs = nil
 	for i, p := range fn.Params {
-		n := p.Name()
-		if n == "" || n == "_" {
-			n = fmt.Sprintf("p%d", i)
-		}
+		n := paramNameOf(fn, i)
 		v := m.ts.FreshValue("in."+n, p.Type())
 		m.markOld(v)
 		m.assumeWellFormed(st, p.Type(), v)
@@ -280,6 +274,22 @@ func (m *Machine) allTags() []string {
 	return out
 }
 
+func unionTags(a, b []string) []string {
+	set := map[string]bool{}
+	for _, x := range a {
+		set[x] = true
+	}
+	for _, x := range b {
+		set[x] = true
+	}
+	var out []string
+	for k := range set {
+		out = append(out, k)
+	}
+	sort.Strings(out)
+	return out
+}
+
 // unwindTags: every property for which the function under verification has obligations.
 func (m *Machine) unwindTags() []string {
 	set := map[string]bool{"C06": true, "C10": true, "C11": true}
@@ -314,9 +324,9 @@ func (m *Machine) currentBindings(st *State, fr *Frame) map[string]Value {
 		if p, ok := fr.fvals[i].(*Ptr); ok {
 			if pt, isPtr := fv.Type().(*types.Pointer); isPtr {
 				if keepPtrFV(pt.Elem()) {
-					bind[fv.Name()] = p
+					bind[freeVarNameOf(fr.fn, fv)] = p
 				} else {
-					bind[fv.Name()] = m.Load(st, p)
+					bind[freeVarNameOf(fr.fn, fv)] = m.Load(st, p)
 				}
 			}
 		}
@@ -1081,6 +1091,8 @@ func (m *Machine) enterLoopHeader(st *State, fr *Frame, from, header *ssa.BasicB
 			if len(t) == 0 {
 				t = m.safeTagsFor(fr.fn)
 			}
+			// an invariant carries every postcondition proved after the loop: it belongs to every property the function has clauses for
+			t = unionTags(t, m.allTags())
 			label := inv.Label
 			if label == "" {
 				label = fmt.Sprint(i)
@@ -1752,9 +1764,10 @@ func (m *Machine) loopExits(st *State, fr *Frame, from, target *ssa.BasicBlock) 
 // paramCell: the heap cell a parameter was moved to (go/ssa does this for parameters captured by closures).
 func (m *Machine) paramCell(fr *Frame, name string) *Ptr {
 	isParam := false
-	for _, p := range fr.fn.Params {
-		if p.Name() == name {
+	for i, p := range fr.fn.Params {
+		if paramNameOf(fr.fn, i) == name {
 			isParam = true
+			name = p.Name() // the cell is named after the parameter as spelled in the code
 		}
 	}
 	if !isParam || len(fr.fn.Blocks) == 0 {
